@@ -50,7 +50,7 @@
 #define MAXSTEPS 8
 #define MAXFR 64
 
-enum { A_END, A_CONNECT, A_CONREQ, A_SVCREQ, A_CLOSE, A_DROP };
+enum { A_END, A_CONNECT, A_CONREQ, A_SVCREQ, A_CLOSE, A_DROP, A_FLUSH };   /* A_FLUSH: CHN_NOTIFY_REQ with VBI_PROXY_CHN_FLUSH ("I changed the channel"): the daemon drops every queued frame of every client */
 struct step { int act; unsigned services; int strict; int reset; };
 struct script { int nclients; int nframes; struct step s[NCL][MAXSTEPS]; const char *name; };
 
@@ -69,12 +69,15 @@ static const struct script scripts[] = {
                   { {A_CONNECT}, {A_CONREQ, TTX, 0}, {A_DROP}, {A_CONNECT}, {A_CONREQ, CC, 1}, {A_END} } }, "2 clients: none->VPS|WSS->none close; TTX drop, reconnect CC" },
         { 2, 4, { { {A_CONNECT}, {A_CONREQ, VBI_SLICED_TELETEXT_B_525 | VBI_SLICED_CAPTION_525, 0}, {A_SVCREQ, TTX, 0, 0}, {A_END} },
                   { {A_CONNECT}, {A_CONREQ, TTX | VPS | CC | WSS, 1}, {A_SVCREQ, VPS, 2, 1}, {A_END} } }, "2 clients: unsupported services rejected then TTX; all -> VPS only" },
+        { 2, 7, { { {A_CONNECT}, {A_CONREQ, TTX | VPS, 0}, {A_FLUSH}, {A_END} },
+                  { {A_CONNECT}, {A_CONREQ, WSS | CC, 1}, {A_SVCREQ, TTX, 0, 0}, {A_END} } }, "2 clients: TTX|VPS announces a channel change (flush); WSS|CC +TTX" },
 };
 #define NSCRIPTS ((int)(sizeof scripts / sizeof scripts[0]))
 
 /* ---- per execution state --------------------------------------------------------------- */
 
-enum { SK_CONREQ, SK_SVCREQ, SK_CLOSE };
+enum { SK_CONREQ, SK_SVCREQ, SK_CLOSE, SK_FLUSH };
+static int flush_pending;         /* CHN_NOTIFY_REQ(FLUSH) sent, not yet seen processed: whatever is captured meanwhile is queued when it is processed */
 struct sent { long end; int kind; unsigned services; int reset; };
 
 static const struct script *SC;
@@ -142,6 +145,7 @@ static void model_progress(int c)
                         C[c].req_services |= m->services; C[c].grant = C[c].req_services & ENV_DEV_SERVICES;
                         break;
                 case SK_CLOSE: C[c].subscribed = 0; C[c].grant = 0; break;
+                case SK_FLUSH: if (flush_pending > 0) flush_pending--; break;
                 }
                 k++;
         }
@@ -151,12 +155,12 @@ static void model_progress(int c)
 static void on_capture(int k)
 {
         if (k >= MAXFR) return;
+        for (int c = 0; c < NCL; c++) model_progress(c);
         for (int c = 0; c < NCL; c++) {
-                model_progress(c);
                 if (C[c].subscribed && C[c].grant && env_clnt[c].fd >= 0) {
                         /* a request of the client itself is on its way (SERVICE_REQ / CLOSE_REQ sent, not yet processed):
                          * the frame will still be queued when the daemon processes it and may be dropped then */
-                        C[c].owed[k] = (C[c].stall_declared || C[c].nq > 0) ? 2 : 1; C[c].owed_grant[k] = C[c].grant;
+                        C[c].owed[k] = (C[c].stall_declared || C[c].nq > 0 || flush_pending > 0) ? 2 : 1; C[c].owed_grant[k] = C[c].grant;
                 }
         }
 }
@@ -183,6 +187,7 @@ static void examine(int c)
                 env_rxmsg *m = &cl->log[C[c].seen_log];
                 if (m->type == 0xFFFFFFFF) { viol("client received broken framing", "client %d len %u", c, m->len); continue; }
                 if (m->type == MSG_TYPE_CONNECT_REJ) continue;
+                if (m->type == MSG_TYPE_CHN_NOTIFY_CNF) { if (C[c].awaiting > 0) C[c].awaiting--; continue; }
                 if (m->type == MSG_TYPE_CONNECT_CNF || m->type == MSG_TYPE_SERVICE_CNF || m->type == MSG_TYPE_SERVICE_REJ) {
                         if (C[c].awaiting > 0) C[c].awaiting--;
                         if (m->type != MSG_TYPE_SERVICE_REJ && (m->services & ~ENV_DEV_SERVICES))
@@ -254,7 +259,7 @@ static int step_enabled(int c)
         if (st->act == A_CONNECT) return env_clnt[c].fd < 0 && !env_clnt[c].connect_pending && env_req(c) == NULL;
         if (env_clnt[c].fd < 0) return 0;                     /* connection gone (rejected): script ends */
         if (env_clnt[c].connect_pending) return 0;
-        if (st->act == A_CONREQ || st->act == A_SVCREQ) return C[c].awaiting == 0 || C[c].half_sent;
+        if (st->act == A_CONREQ || st->act == A_SVCREQ || st->act == A_FLUSH) return C[c].awaiting == 0 || C[c].half_sent;
         return 1;
 }
 
@@ -273,6 +278,8 @@ static void do_step(int c, int half)
         case A_SVCREQ: { VBIPROXY_SERVICE_REQ q; memset(&q, 0, sizeof q); q.reset = st->reset; q.commit = 1; q.strict = st->strict; q.services = st->services;
                 n = env_build_msg(buf, MSG_TYPE_SERVICE_REQ, &q, sizeof q); break; }
         case A_CLOSE: n = env_build_msg(buf, MSG_TYPE_CLOSE_REQ, NULL, 0); break;
+        case A_FLUSH: { VBIPROXY_CHN_NOTIFY_REQ q; memset(&q, 0, sizeof q); q.notify_flags = VBI_PROXY_CHN_FLUSH;
+                n = env_build_msg(buf, MSG_TYPE_CHN_NOTIFY_REQ, &q, sizeof q); break; }
         case A_DROP:
                 make_unread_optional(c);
                 env_close(c); C[c].subscribed = 0; C[c].grant = 0; C[c].nq = 0; C[c].pc++;
@@ -287,10 +294,11 @@ static void do_step(int c, int half)
         if (C[c].nq < 8) {
                 struct sent *m = &C[c].q[C[c].nq++];
                 m->end = env_clnt[c].tx_bytes; m->services = st->services; m->reset = st->reset;
-                m->kind = st->act == A_CONREQ ? SK_CONREQ : st->act == A_SVCREQ ? SK_SVCREQ : SK_CLOSE;
+                m->kind = st->act == A_CONREQ ? SK_CONREQ : st->act == A_SVCREQ ? SK_SVCREQ : st->act == A_FLUSH ? SK_FLUSH : SK_CLOSE;
         }
         if (st->act == A_SVCREQ || st->act == A_CLOSE) make_unread_optional(c);
-        if (st->act == A_CONREQ || st->act == A_SVCREQ) C[c].awaiting++;
+        if (st->act == A_FLUSH) { flush_pending++; for (int o = 0; o < NCL; o++) make_unread_optional(o); }     /* every client's queued frames go */
+        if (st->act == A_CONREQ || st->act == A_SVCREQ || st->act == A_FLUSH) C[c].awaiting++;
         C[c].pc++;
 }
 
@@ -323,7 +331,7 @@ static int sched_hook(int nready)
         /* deviation-only variants */
         if (opt_part) for (int c = 0; c < SC->nclients; c++) if (readable(c) && env_readable(c) > 100) { E[n].kind = EV_PART; E[n++].c = c; }
         if (opt_half) for (int c = 0; c < SC->nclients; c++) if (step_enabled(c) && !C[c].half_sent) {
-                int a = SC->s[c][C[c].pc].act; if (a == A_CONREQ || a == A_SVCREQ || a == A_CLOSE) { E[n].kind = EV_HALF; E[n++].c = c; } }
+                int a = SC->s[c][C[c].pc].act; if (a == A_CONREQ || a == A_SVCREQ || a == A_CLOSE || a == A_FLUSH) { E[n].kind = EV_HALF; E[n++].c = c; } }
         if (opt_sendcap && nready > 0) for (PROXY_CLNT *r = proxy.p_clnts; r; r = r->p_next) if (r->io.writeLen > 0 || r->p_sliced) { E[n].kind = EV_SENDCAP; E[n++].c = 0; break; }
         if (n == 0) {
                 /* nothing can happen any more */
@@ -383,7 +391,7 @@ static mc_hset *seen_outcomes;
 static void sched_body(void *arg)
 {
         const struct script *sc = arg;
-        SC = sc; memset(C, 0, sizeof C); for (int c = 0; c < NCL; c++) C[c].last_frame = -1;
+        SC = sc; memset(C, 0, sizeof C); flush_pending = 0; for (int c = 0; c < NCL; c++) C[c].last_frame = -1;
         frames_left = sc->nframes; last_was_step = 0; n_select = 0;
         env_cap.use_thread = use_thread; env_cap.fail_open = 0; env_buffer_count = 0;
         size_t heap0 = heap_now();
@@ -455,7 +463,7 @@ static void stall_case(uint64_t idx, void *arg)
         use_thread = arg != NULL;
         vkey = use_thread ? "stall-thread" : "stall";
         mc_case(use_thread ? "stall-thread: daemon dies" : "stall: daemon dies", "%s", sched_desc);
-        memset(C, 0, sizeof C); for (int c = 0; c < NCL; c++) C[c].last_frame = -1;
+        memset(C, 0, sizeof C); flush_pending = 0; for (int c = 0; c < NCL; c++) C[c].last_frame = -1;
         frames_left = sc.nframes; n_select = 0;
         env_cap.use_thread = use_thread; env_cap.fail_open = 0; env_buffer_count = ST->buffers;
         env_init(); env_on_capture = on_capture; env_hook_fn = stall_hook;
@@ -499,6 +507,7 @@ static int conf_fail(const char *what, const char *fmt, ...)
         return -1;
 }
 
+static int conf_skip_older;
 static int pull_frame(vbi_capture *cap, int k, unsigned grant, const char *who)
 {
         for (int tries = 0; tries < 8; tries++) {
@@ -509,6 +518,8 @@ static int pull_frame(vbi_capture *cap, int k, unsigned grant, const char *who)
                 env_frame_t f; env_make_frame(k, &f);
                 int n = sb->size / sizeof(vbi_sliced), want = 0;
                 const vbi_sliced *got = sb->data;
+                /* frames that were queued when this client changed its services may still arrive (or be dropped) */
+                if (conf_skip_older > 0 && n > 0 && got[0].data[0] != (uint8_t) k && (uint8_t)(k - got[0].data[0]) <= 2) { conf_skip_older--; mc_count("conform_old_frames_delivered_after_service_change", 1); tries--; continue; }
                 for (int i = 0; i < f.nlines; i++) if (f.lines[i].id & grant) {
                         if (want >= n || memcmp(&got[want], &f.lines[i], sizeof(vbi_sliced)))
                                 return conf_fail("frame returned by the real client library differs from the reference capture", "%s frame %d line %d", who, k, i);
@@ -557,6 +568,7 @@ static void conform_case(uint64_t idx, void *arg)
         sockpath = vbi_proxy_msg_get_socket_name(dev);
         efd = eventfd(0, EFD_SEMAPHORE | EFD_NONBLOCK);
         unlink(sockpath);
+        env_big_frames = 1;              /* both processes: a Teletext subscriber's SLICED_IND (21 lines, 1.4 KB) is the largest message on the socket */
         pid_t child = fork();
         if (child == 0) {
                 /* the daemon process */
@@ -604,15 +616,26 @@ static void conform_case(uint64_t idx, void *arg)
                         if (pull_frame(c1, k, s1, "client 1")) goto out;
                         if (c2 && pull_frame(c2, k, s2, "client 2")) goto out;
                 }
+                /* two frames are captured and sent but not yet pulled when client 1 changes its services: the change may cost
+                 * these two frames (of client 1 only), nothing else */
+                for (int q = 0; q < 2; q++) if (write(efd, &one, 8) != 8) goto out;
+                {
+                        int cfd = vbi_capture_fd(c1); fd_set rs; struct timeval tv = { 10, 0 };
+                        FD_ZERO(&rs); FD_SET(cfd, &rs);
+                        if (cfd < 0 || select(cfd + 1, &rs, NULL, NULL, &tv) <= 0) { conf_fail("harness: frames in flight did not reach the client socket", "fd %d", cfd); goto out; }
+                        usleep(150000);          /* the second one follows within microseconds */
+                }
                 /* service change through the library: reset to WSS */
                 env_tap_on = 1; env_tap_len = 0;
                 unsigned got = vbi_capture_update_services(c1, TRUE, TRUE, WSS, 1, &err);
                 env_tap_on = 0;
-                if (got != WSS) { conf_fail("vbi_capture_update_services through the proxy failed", "granted %x", got); goto out; }
+                if (got != WSS) { conf_fail("vbi_capture_update_services through the proxy failed (two frames waiting in the socket)", "granted %x err %s", got, err ? err : "-"); goto out; }
+                if (c2) for (int q = 0; q < 2; q++) if (pull_frame(c2, k + q, s2, "client 2, frames captured before client 1 changed its services")) goto out;
+                k += 2; conf_skip_older = 2;
                 { VBIPROXY_SERVICE_REQ q; memset(&q, 0, sizeof q); q.reset = 1; q.commit = 1; q.strict = 1; q.services = WSS;
                   tap_expect("SERVICE_REQ", MSG_TYPE_SERVICE_REQ, &q, sizeof q, FL_SERVICE, NF(FL_SERVICE)); }
                 s1 = WSS;
-                for (; k < 6; k++) {
+                for (; k < 8; k++) {
                         if (write(efd, &one, 8) != 8) goto out;
                         if (pull_frame(c1, k, s1, "client 1 after service change")) goto out;
                         if (c2 && pull_frame(c2, k, s2, "client 2")) goto out;
@@ -620,7 +643,8 @@ static void conform_case(uint64_t idx, void *arg)
                 {       /* a service change the device cannot satisfy is rejected; the subscription continues unchanged */
                         unsigned g = vbi_capture_update_services(c1, FALSE, TRUE, VBI_SLICED_CAPTION_525, 0, &err);
                         if (g & VBI_SLICED_CAPTION_525) { conf_fail("service the device cannot capture was granted through the library", "granted %x", g); goto out; }
-                        for (; k < 8; k++) {
+                        conf_skip_older = 0;
+                        for (; k < 10; k++) {
                                 if (write(efd, &one, 8) != 8) goto out;
                                 if (pull_frame(c1, k, s1, "client 1 after a rejected service change")) goto out;
                                 if (c2 && pull_frame(c2, k, s2, "client 2")) goto out;
@@ -643,7 +667,7 @@ static void conform_case(uint64_t idx, void *arg)
                         { VBIPROXY_CHN_NOTIFY_REQ q; memset(&q, 0, sizeof q); q.notify_flags = VBI_PROXY_CHN_TOKEN; q.scanning = 0;
                           tap_expect("CHN_NOTIFY_REQ", MSG_TYPE_CHN_NOTIFY_REQ, &q, sizeof q, FL_NOTIFY, NF(FL_NOTIFY)); }
                         if (nr < 0) { conf_fail("channel notify failed", "%d", nr); goto out; }
-                        for (; k < 10; k++) {
+                        for (; k < 12; k++) {
                                 if (write(efd, &one, 8) != 8) goto out;
                                 if (pull_frame(c1, k, s1, "client 1 after token traffic")) goto out;
                                 if (c2 && pull_frame(c2, k, s2, "client 2 after token traffic")) goto out;
@@ -665,7 +689,7 @@ static void conform_case(uint64_t idx, void *arg)
 out:
         kill(child, SIGKILL); { int st2; waitpid(child, &st2, 0); }
         unlink(sockpath); free(sockpath); close(efd);
-        env_passthrough = 0;
+        env_passthrough = 0; env_big_frames = 0;
 }
 
 /* ---------------------------------------------------------------------------------------- */
